@@ -355,7 +355,7 @@ def run(chk):
         if b['ctx'] == 'content' and not b['high']:
             texts[tuple(b['s'] or [])] = 1
     # ... and by simulation for longer ones
-    nsim, dsim = (1500, 7) if tier == 'quick' else (30000, 9)
+    nsim, dsim = (1500, 7) if tier == 'quick' else (4000, 9)      # TLC evaluates the printing invariant on every successor: ~20 texts per step
     rs = tlc.run('Escape', cfg_text=CFG % (', '.join(q(a) for a in ALPHA_T), words, dsim, 'FALSE' if asbuilt else 'TRUE', 'FALSE' if asbuilt else 'TRUE', 'INVARIANT EmitBeh'),
                  simulate=nsim, depth=dsim + 1, seed=seed + 11, timeout=3400, heap='8g', workers=4)
     chk.add_tlc(rs, 'simulate(num=%d,depth=%d)' % (nsim, dsim))
